@@ -295,7 +295,199 @@ def check_C06(tier, seed):
                   exhaustive=False if q else False)
 
 
+
+# ------------------------------------------------------------------------------------------------ MCPort based checks
+
+PORT_BASE = dict(INST_CONST)
+PORT_BASE.update({'NSync': 2, 'NDelay': 2, 'TwoStepSet': '{1}', 'S0': 65534, 'MaxRep': 2, 'AnnVar': '{1}', 'NPd': 2,
+                  'Prefix': ('<-', 'PrefixNone'), 'PCfg': ('<-', 'PCfg_E')})
+
+
+def port_consts(fam, **kw):
+    c = dict(PORT_BASE)
+    c['Fam'] = tla_set(fam)
+    for k, v in kw.items():
+        c[k] = v
+    return c
+
+
+def asym(ports):
+    for p in ports:
+        p['asym'] = 'asym'
+    return ports
+
+
+def check_C09(tier, seed):
+    t0 = time.time()
+    build('dev')
+    v = Verdict('C09')
+    acc = Acc()
+    q = tier == 'quick'
+    inv = ['SingleExchange', 'DelayIdsMatch']
+    owns = ['flt', 'snap.sync', 'snap.delay', 'snap.lrs', 'snap.md', 'clk']
+    w = world(asym([e2e()]))
+    fam = ['sync', 'dresp', 'ts', 'tdreq']
+    seeds = [seed] if q else [seed, seed + 1, seed + 2]
+    # two exchanges (one two-step, one one-step, ids 65535 and 0), two delay exchanges, every message up to twice, any order
+    run_inst_suite('C09', v, acc, 'C09-two-syncs', 'MCPort', port_consts(fam, Prefix=('<-', 'PrefixSlave')), w, 12 if q else 16, seed, owns, ['C09'], invariants=inv)
+    # three exchanges, each message once
+    run_inst_suite('C09', v, acc, 'C09-three-syncs', 'MCPort',
+                   port_consts(fam, Prefix=('<-', 'PrefixSlave'), NSync=3, TwoStepSet='{1, 3}', MaxRep=1), w, 11 if q else 14, seed + 7, owns, ['C09'], invariants=inv)
+    # both two-step with interleaved follow-ups, plus parent Announces and BMCA in between
+    run_inst_suite('C09', v, acc, 'C09-two-step-bmca', 'MCPort',
+                   port_consts(fam + ['annP', 'bmca'], Prefix=('<-', 'PrefixSlave'), TwoStepSet='{1, 2}', MaxRep=1), w, 8 if q else 10, seed + 13, owns, ['C09'], invariants=inv)
+    if not q:
+        for sd in seeds[1:]:
+            run_inst_suite('C09', v, acc, 'C09-two-syncs-seed%d' % sd, 'MCPort', port_consts(fam, Prefix=('<-', 'PrefixSlave')), w, 8, sd, owns, ['C09'], invariants=inv)
+        run_inst_suite('C09', v, acc, 'C09-sim', 'MCPort', port_consts(fam + ['annP', 'bmca', 'trcpt'], Prefix=('<-', 'PrefixSlave'), NSync=3, NDelay=3, TwoStepSet='{1, 3}'),
+                       w, 60, seed, owns, ['C09'], invariants=inv, simulate=(200, 40))
+    return finish('C09', tier, seed, 'model_checking', v, acc, t0,
+                  EDGE_RULE + '; measurements are symbolic expression trees over named timestamps/corrections in the specification and are evaluated '
+                  'with per-seed concrete 128-bit values (sub-nanosecond parts, second boundaries, both signs of corrections and asymmetry) '
+                  'and compared bit-exactly with the Measurement the real filter received',
+                  COMMON_ASSUME + ['a recording filter stands in for the servo and returns mean_delay = the measured delay',
+                                   'the host reports each transmit timestamp once (TimestampContext is not clonable)'])
+
+
+
+def check_C10(tier, seed):
+    t0 = time.time()
+    build('dev')
+    build('release')
+    v = Verdict('C10')
+    acc = Acc()
+    q = tier == 'quick'
+    inv = ['OneEventSend']
+    props_ = ['FollowUpOnce', 'Echo', 'SeqPlusOne']
+    owns = ['out.Sync', 'out.FollowUp', 'out.DelayResp', 'out.PdelayResp', 'out.PdelayRespFup', 'out.DelayReq', 'out.PdelayReq', 'out.len', 'snap.nseq',
+            'out.Announce.seq', 'out.Announce.src', 'out.Announce.dom', 'out.Announce.sdo', 'out.Announce.ver', 'out.Announce.selfdec', 'out.Announce.ll', 'out.Announce.a']
+    w1 = world(asym([e2e()]))
+    wp = world(asym([p2p()]))
+    # master port: sync/announce timers, transmit timestamps, delay requests from two requesters (ids 0 and 65535), peer delay requests
+    run_inst_suite('C10', v, acc, 'C10-master', 'MCPort', port_consts(['tsync', 'tann', 'ts', 'dreq', 'pdreq'], Prefix=('<-', 'PrefixMaster')), w1,
+                   6 if q else 8, seed, owns, ['C10'], invariants=inv, properties=props_)
+    run_inst_suite('C10', v, acc, 'C10-master-release', 'MCPort', port_consts(['tsync', 'ts', 'dreq', 'pdreq'], Prefix=('<-', 'PrefixMaster')), w1,
+                   5 if q else 7, seed + 1, owns, ['C10'], invariants=inv, properties=props_, profile='release')
+    # slave and listening ports: delay requests, peer delay responses in every state, role changes in between
+    run_inst_suite('C10', v, acc, 'C10-roles', 'MCPort', port_consts(['tsync', 'tdreq', 'ts', 'dreq', 'pdreq', 'annP', 'bmca', 'trcpt']), w1,
+                   6 if q else 8, seed + 2, owns, ['C10'], invariants=inv, properties=props_)
+    run_inst_suite('C10', v, acc, 'C10-p2p', 'MCPort', port_consts(['tsync', 'tdreq', 'ts', 'pdreq', 'trcpt'], PCfg=('<-', 'PCfg_P')), wp,
+                   6 if q else 8, seed + 3, owns, ['C10'], invariants=inv, properties=props_)
+    # sequence id wrap: 65540 emissions per message type through the real port
+    wrap = run_driver('seqwrap', ['--count', '65540' if not q else '65540', '--seed', str(seed)], 'C10-seqwrap', timeout=600)
+    acc.suites.append({'suite': 'C10-seqwrap', 'driver': 'harness/src/bin/seqwrap.rs', 'result': wrap})
+    acc.events += wrap.get('calls', 0)
+    for item in wrap.get('violations', []):
+        v.add({'kind': 'predicate', 'key': 'C10/seqwrap', 'detail': item['detail'], 'replay': item['replay']})
+    return finish('C10', tier, seed, 'model_checking', v, acc, t0,
+                  EDGE_RULE + '; transmit/receive timestamps and correction fields are named symbols in the specification, concretised per seed over the 80-bit '
+                  'range with sub-nanosecond fractions; "timestamp + correction" of an emitted frame must equal the symbolic sum to 2^-16 ns',
+                  COMMON_ASSUME + ['emitted frames are parsed by the harness\'s independent decoder and by statime\'s own parser'])
+
+
+def run_driver(binname, args, name, profile='dev', timeout=900):
+    """run a harness driver binary that prints one JSON report on stdout"""
+    d = outdir('replay', name)
+    vlib.clean_dir(d)
+    try:
+        r = subprocess.run([binpath(binname, profile)] + args + ['--replay-dir', d], cwd=ROOT, stdout=subprocess.PIPE, stderr=subprocess.PIPE, text=True, timeout=timeout)
+    except subprocess.TimeoutExpired:
+        raise ToolError('driver %s timed out' % binname)
+    if r.returncode != 0:
+        raise ToolError('driver %s failed: %s' % (binname, (r.stderr or r.stdout)[-2000:]))
+    return json.loads(r.stdout)
+
+
+def check_C14(tier, seed):
+    t0 = time.time()
+    build('dev')
+    v = Verdict('C14')
+    acc = Acc()
+    q = tier == 'quick'
+    inv = ['OneResponder']
+    props_ = ['SecondResponderFaults', 'FaultyIsInert', 'LeavesOnlyByCleanExchange']
+    owns = ['flt', 'snap.pd', 'snap.md', 'pst', 'md', 'clk']
+    wp = world(asym([p2p()]))
+    fam = ['tdreq', 'ts', 'pd']
+    run_inst_suite('C14', v, acc, 'C14-listening', 'MCPort', port_consts(fam, PCfg=('<-', 'PCfg_P')), wp, 8 if q else 11, seed, owns, ['C14'],
+                   invariants=inv, properties=props_)
+    run_inst_suite('C14', v, acc, 'C14-master', 'MCPort', port_consts(fam + ['tann', 'tsync', 'trcpt'], PCfg=('<-', 'PCfg_P'), Prefix=('<-', 'PrefixPdMaster'), MaxRep=1), wp,
+                   7 if q else 9, seed + 1, owns, ['C14'], invariants=inv, properties=props_)
+    run_inst_suite('C14', v, acc, 'C14-slave', 'MCPort', port_consts(fam + ['pdfupB', 'sync', 'annP', 'bmca'], PCfg=('<-', 'PCfg_P'), Prefix=('<-', 'PrefixSlave'), MaxRep=1, NSync=1, TwoStepSet='{}'), wp,
+                   6 if q else 8, seed + 2, owns, ['C14'], invariants=inv, properties=props_)
+    if not q:
+        run_inst_suite('C14', v, acc, 'C14-sim', 'MCPort', port_consts(fam + ['pdfupB', 'tann', 'tsync', 'trcpt', 'annP', 'bmca'], PCfg=('<-', 'PCfg_P'), NPd=4), wp,
+                       60, seed, owns, ['C14'], invariants=inv, properties=props_, simulate=(200, 40))
+    return finish('C14', tier, seed, 'model_checking', v, acc, t0, EDGE_RULE + '; peer delay values are symbolic forms evaluated per seed and compared bit-exactly',
+                  COMMON_ASSUME + ['two responders (one two-step, one one-step), two consecutive requests, every message up to twice in any order'])
+
+
+def check_C11(tier, seed):
+    t0 = time.time()
+    build('dev')
+    v = Verdict('C11')
+    acc = Acc()
+    q = tier == 'quick'
+    inv = ['GMOwn', 'GMParent']
+    props_ = ['AnnounceContent']
+    owns = ['out.Announce.gm', 'out.Announce.steps', 'out.Announce.tp', 'gm', 'steps', 'tp', 'ppi']
+    w2 = world([e2e(), e2e()])
+    fam = ['annP', 'annO', 'bmca', 'tann', 'trcpt', 'q']
+    run_inst_suite('C11', v, acc, 'C11-boundary', 'MCPort', port_consts(fam, PCfg=('<-', 'PCfg_A'), Prefix=('<-', 'PrefixBoundary'), AnnVar='{1, 2, 3}'), w2,
+                   5 if q else 7, seed, owns, ['C11'], invariants=inv, properties=props_)
+    run_inst_suite('C11', v, acc, 'C11-from-start', 'MCPort', port_consts(fam, PCfg=('<-', 'PCfg_A'), AnnVar='{2, 4}'), w2,
+                   6 if q else 8, seed + 1, owns, ['C11'], invariants=inv, properties=props_)
+    w3 = world([e2e(), e2e(), e2e()])
+    if not q:
+        run_inst_suite('C11', v, acc, 'C11-sim', 'MCPort', port_consts(fam + ['so'], PCfg=('<-', 'PCfg_A'), AnnVar='{1, 2, 3, 4}'), w2,
+                       50, seed, owns, ['C11'], invariants=inv, properties=props_, simulate=(300, 40))
+    return finish('C11', tier, seed, 'model_checking', v, acc, t0, EDGE_RULE,
+                  COMMON_ASSUME + ['parent Announce contents range over four variants (grandmaster record, stepsRemoved 0/1/254, every leap/traceable flag, '
+                                   'utc offset valid/invalid/negative, three time sources); the byte-level field mapping is checked through the independent decoder'])
+
+
+def check_C07(tier, seed):
+    t0 = time.time()
+    build('dev')
+    v = Verdict('C07')
+    acc = Acc()
+    q = tier == 'quick'
+    props_ = ['NoiseInert']
+    owns = ['*']   # for a noise event every departure is a C07 violation; for other events nothing is owned (see judge below)
+    wl = world(asym([e2e(aml=[2, 9])]))
+    famn = ['n_filter', 'n_ann', 'n_slave']
+    suites = [
+        ('C07-slave', port_consts(['sync', 'dresp', 'ts', 'tdreq'] + famn, PCfg=('<-', 'PCfg_L'), Prefix=('<-', 'PrefixSlave'), MaxRep=1), wl, 6 if q else 8),
+        ('C07-roles', port_consts(['annP', 'annO', 'bmca', 'trcpt', 'tann', 'tsync'] + famn, PCfg=('<-', 'PCfg_L'), MaxRep=1, NSync=1, NDelay=1), wl, 5 if q else 7),
+    ]
+    for name, c, w, d in suites:
+        run_inst_suite('C07', v, acc, name, 'MCPort', c, w, d, seed, [], [], properties=props_)
+        # verdict: only edges whose last event is noise count
+        rep = json.load(open(os.path.join(OUT, 'logs', name + '.report.json')))
+        for key, items in rep.get('kept', {}).items():
+            for it in items:
+                if (it.get('last') or {}).get('noise'):
+                    v.add({'kind': 'mismatch', 'key': key, 'detail': it['detail'], 'last': it.get('last'), 'replay': it['replay'], 'suite': name})
+    # two-run form on the real code: H with noise vs H without, in lock-step
+    tr = run_driver('tworun', ['--seed', str(seed), '--runs', '300' if q else '5000', '--len', '60'], 'C07-tworun', timeout=900)
+    acc.suites.append({'suite': 'C07-tworun', 'driver': 'harness/src/bin/tworun.rs', 'result': {k: tr[k] for k in tr if k != 'violations'}})
+    acc.events += tr.get('calls', 0)
+    acc.edges += tr.get('runs', 0)
+    for item in tr.get('violations', []):
+        v.add({'kind': 'predicate', 'key': 'C07/tworun', 'detail': item['detail'], 'replay': item['replay']})
+    return finish('C07', tier, seed, 'model_checking', v, acc, t0,
+                  EDGE_RULE + '; plus randomised two-run histories (with / without the inserted frames) compared in lock-step',
+                  COMMON_ASSUME + ['noise families: other domain, other sdoId, versionPTP 1, truncated frame, messageLength < 34, Signaling, Management, Announce from an '
+                                   'identity outside the acceptable master list, Announce bearing the port\'s own identity, Sync/Follow_Up/Delay_Resp from a non-parent, '
+                                   'Delay_Resp for another requester, Sync on the general channel'])
+
+
 CHECKS = {
+    'C07': check_C07,
+    'C10': check_C10,
+    'C11': check_C11,
+    'C14': check_C14,
+    'C09': check_C09,
     'C06': check_C06,
     'C05': check_C05,
     'C08': check_C08,
